@@ -15,6 +15,7 @@ from ..report import Check, canon
 import re
 
 from ..capcheck import run_cap
+from ..cap import Cap as Cap0
 
 NORETURN = {"libast_fatal_error"}
 UNITS = ["str.c", "ustr.c"]
@@ -109,6 +110,15 @@ def check_soft_guards(chk, prog, fns):
                 continue    # the macro's own runtime-level test
             facts_ = X.implied(cond, True) | X.implied(cond, False)
             only_null = bool(facts_) and all(ft[0] in ("nn", "null") for ft in facts_)
+            # ... and of objects / handles only: a NULL *text or byte pointer* is data (SPIF_STR_STR of an empty object is NULL by
+            # design) and is refused softly, by REQUIRE, at every level and in every build
+            pmap = {"d%d" % p_["d"]: p_ for p_ in f.params}
+            for ft in facts_:
+                p_ = pmap.get(ft[1]) if ft[0] in ("nn", "null") else None
+                if p_ is not None:
+                    t_ = " ".join(((p_.get("tc") or "") + " " + (p_.get("t") or "")).replace("const", " ").split())
+                    if re.search(r"\b(unsigned |signed )?char \*( |$)", t_) and "_t_struct" not in t_:
+                        only_null = False
             n += 1
             # validity of a file-descriptor argument (init_from_fd / new_from_fd) is not a position inside the value: a sign test of
             # an int parameter of a *_fd function, in whatever polarity the macro spells its test
@@ -119,9 +129,9 @@ def check_soft_guards(chk, prog, fns):
                     X.const_val(cd["ch"][1]) in (0, -1) and X.strip(cd["ch"][0]).get("rk") == "param" and not X.strip(cd["ch"][0]).get("tp"):
                 only_null = True
             chk.ob("B3", f.name, "assert-is-null-guard:" + canon(f, cond)[:40], only_null, loc=f.loc(x),
-                   detail="%s guards a value/range condition (%s) with ASSERT: at runtime level >= 1 an out-of-range argument kills the "
-                          "process and with DEBUG=0 the guard vanishes, instead of being refused" % (f.name, X.render(cond)[:60]),
-                   proof="ASSERT condition is a pure NULL test")
+                   detail="%s guards a value/range condition or a data pointer (%s) with ASSERT: at runtime level >= 1 such an argument "
+                          "kills the process and with DEBUG=0 the guard vanishes, instead of being refused" % (f.name, X.render(cond)[:60]),
+                   proof="ASSERT condition is a pure NULL test of an object / handle parameter")
     return n
 
 
@@ -138,7 +148,18 @@ def run(tier="quick", prop="C01", units=None, extra_rules=True):
     chk.rule("R2", "reader advances only by positive counts")
     prog = facts.extract()
     fns = scope(prog, units)
-    nf, nund, samples = run_cap(chk, prog, fns, rule="B1", noreturn=NORETURN)
+    if prop == "C07":
+        # E2: comparisons between two buffer objects look only at the first len bytes of each
+        chk.rule("E2", "a comparison of two buffer objects reads only their values (not the capacity beyond len)")
+
+        class ExtentCap(Cap0):
+            check_value_extent = True
+        nf, nund, samples = run_cap(chk, prog, fns, rule="B1", noreturn=NORETURN, cap_factory=lambda p_: ExtentCap(p_, noreturn=NORETURN))
+        for o in list(chk.obls):
+            if o.site.startswith("extent:"):
+                o.rule = "E2"
+    else:
+        nf, nund, samples = run_cap(chk, prog, fns, rule="B1", noreturn=NORETURN)
     n2 = check_not_found(chk, prog, fns)
     n3 = check_soft_guards(chk, prog, fns)
     nr = 0
